@@ -16,16 +16,75 @@ open Pybtex Pybtex.IO
 
 /-! ## readers -/
 
-/-- **Parse entry points** (BaseParser, both `unicode_io` values, and the BibTeX class).
-If the encoding can represent the text (`dec (enc s) = s`), then parsing the encoded bytes, a stream
-holding the document, a file-like object, a file containing the bytes, and `parse_files` with the name
-split into base + suffix, are all the same computation as parsing the string: same database, same error. -/
-theorem C17_parse_entry_points {Db E Tree H : Type}
-    (k : ReaderKind) (hk : k ≠ .bibtexml)
-    (core : ReaderCore Db E Tree) (c : Codec) (encName : Str) (env : Env H) (content : H → Bytes)
+/-- **What a file adds to a string: universal newlines, and nothing else.**  For every reader class, when
+the name is a file, the ONE `open` call `parse_file` makes succeeds and the file holds `enc s`:
+a `unicode_io` class parses the file as it parses the string `univNl s` — `s` with every `\r\n` and lone
+`\r` turned into `\n` by the text-mode file — and a byte class as it parses `s`.  The translated text
+contains no carriage return, and a text without carriage return is not changed. -/
+theorem C17_parse_file_newlines {Db E H : Type}
+    (k : ReaderKind)
+    (core : ReaderCore Db E) (c : Codec) (encName : Str) (env : Env H) (content : H → Bytes)
     (data : Db) (s : Str) (p : Path) (h : H)
     (hrt : c.dec (c.enc s) = .ok s)
-    (hfile : env.isFile p = true) (hopen : ∀ mode kw, env.opener p mode kw = .ok h)
+    (hfile : env.isFile p = true)
+    (hopen : env.opener (.str p) (if k.unicodeIO then ['r'] else ['r', 'b'])
+      (if k.unicodeIO then some encName else none) = .ok h)
+    (hcontent : content h = c.enc s) :
+    (parseFile k core c encName env content data (.path p) none).2
+      = parseString k core c data (if k.unicodeIO then univNl s else s) ∧
+    '\r' ∉ univNl s ∧ ('\r' ∉ s → univNl s = s) := by
+  refine ⟨?_, noCR_univNl s, univNl_of_noCR s⟩
+  cases k with
+  | bibtex =>
+    simp only [ReaderKind.unicodeIO, if_true] at hopen
+    simp [parseFile, ReaderKind.unicodeIO, openUnicode, pyOpen, openExisting, hfile, hopen, readOpened,
+      hcontent, hrt, parseStream, parseString]
+  | base u =>
+    cases u
+    · simp only [ReaderKind.unicodeIO, Bool.false_eq_true, if_false] at hopen
+      simp [parseFile, ReaderKind.unicodeIO, openRaw, pyOpen, openExisting, hfile, hopen, readOpened,
+        hcontent, parseStream, parseString]
+    · simp only [ReaderKind.unicodeIO, if_true] at hopen
+      simp [parseFile, ReaderKind.unicodeIO, openUnicode, pyOpen, openExisting, hfile, hopen, readOpened,
+        hcontent, hrt, parseStream, parseString]
+
+/-- a document with both kinds of line end: the text class is handed the translated text -/
+theorem C17_parse_file_newlines_nonvacuous :
+    let s := "a\r\nb\rc\n".toList
+    let content : PathArg → Bytes := fun _ => Toy.enc s
+    univNl s = "a\nb\nc\n".toList ∧
+    (parseFile (.base true) Toy.reader Toy.codec "L1".toList Toy.env content [] (.path "f.bib".toList) none).2
+      = .ok [.text "a\nb\nc\n".toList] ∧
+    (parseFile (.base false) Toy.reader Toy.codec "L1".toList Toy.env content [] (.path "f.bib".toList) none).2
+      = .ok [.binary (Toy.enc s)] := by
+  intro s content
+  have h1 := (C17_parse_file_newlines (.base true) Toy.reader Toy.codec "L1".toList Toy.env content [] s
+    "f.bib".toList (.str "f.bib".toList) (by decide) (by decide) (by decide) rfl).1
+  have h2 := (C17_parse_file_newlines (.base false) Toy.reader Toy.codec "L1".toList Toy.env content [] s
+    "f.bib".toList (.str "f.bib".toList) (by decide) (by decide) (by decide) rfl).1
+  have hu : univNl s = "a\nb\nc\n".toList := by decide
+  refine ⟨hu, ?_, ?_⟩
+  · rw [h1]; simp only [ReaderKind.unicodeIO, if_true, hu]; decide
+  · rw [h2]; decide
+
+/-- **Parse entry points** (BaseParser with both `unicode_io` values, and the classes whose `parse_string`
+is the text core: BibTeX, and BibTeXML after fix C17-4).
+If the encoding can represent the text (`dec (enc s) = s` — the ONLY fact about the codec that is used)
+and, for a `unicode_io` class, the text contains no carriage return (`hnl`, a decidable condition; what
+happens otherwise is `C17_parse_file_newlines`), then parsing the encoded bytes, a stream holding the
+document, a file-like object, a file containing the bytes, and `parse_files` with the name split into
+base + suffix, are all the same computation as parsing the string: same database, same error.
+About the world only this is assumed: the name is a file, and the ONE `open` call `parse_file` makes (text
+mode with the encoding, or `rb`) succeeds and yields those bytes. -/
+theorem C17_parse_entry_points {Db E H : Type}
+    (k : ReaderKind)
+    (core : ReaderCore Db E) (c : Codec) (encName : Str) (env : Env H) (content : H → Bytes)
+    (data : Db) (s : Str) (p : Path) (h : H)
+    (hrt : c.dec (c.enc s) = .ok s)
+    (hnl : k.unicodeIO = true → '\r' ∉ s)
+    (hfile : env.isFile p = true)
+    (hopen : env.opener (.str p) (if k.unicodeIO then ['r'] else ['r', 'b'])
+      (if k.unicodeIO then some encName else none) = .ok h)
     (hcontent : content h = c.enc s) :
     parseBytes k core c data (c.enc s) = parseString k core c data s ∧
     parseStream k core data (docStream k c s) = parseString k core c data s ∧
@@ -34,26 +93,18 @@ theorem C17_parse_entry_points {Db E Tree H : Type}
     (∀ base sfx, base ++ sfx = p →
       (parseFiles k core c encName env content (some sfx) data [base]).2 = parseString k core c data s) := by
   have hfilePath : (parseFile k core c encName env content data (.path p) none).2 = parseString k core c data s := by
-    cases k with
-    | bibtexml => exact absurd rfl hk
-    | bibtex =>
-      simp [parseFile, ReaderKind.unicodeIO, openUnicode, pyOpen, openExisting, hfile, hopen, readOpened,
-        hcontent, hrt, parseStream, parseString]
-    | base u =>
-      cases u <;>
-      simp [parseFile, ReaderKind.unicodeIO, openUnicode, openRaw, pyOpen, openExisting, hfile, hopen, readOpened,
-        hcontent, hrt, parseStream, parseString]
+    rw [(C17_parse_file_newlines k core c encName env content data s p h hrt hfile hopen hcontent).1]
+    cases hu : k.unicodeIO with
+    | false => simp
+    | true => simp only [if_true]; rw [univNl_of_noCR s (hnl hu)]
   refine ⟨?_, ?_, ?_, hfilePath, ?_⟩
   · cases k with
-    | bibtexml => exact absurd rfl hk
     | bibtex => simp [parseBytes, ReaderKind.unicodeIO, hrt]
     | base u => cases u <;> simp [parseBytes, parseString, ReaderKind.unicodeIO, hrt]
   · cases k with
-    | bibtexml => exact absurd rfl hk
     | bibtex => simp [docStream, ReaderKind.unicodeIO, parseStream, parseString]
     | base u => cases u <;> simp [docStream, ReaderKind.unicodeIO, parseStream, parseString]
   · cases k with
-    | bibtexml => exact absurd rfl hk
     | bibtex =>
       simp [parseFile, docStream, ReaderKind.unicodeIO, openUnicode, pyOpen, readOpened, parseStream, parseString]
     | base u =>
@@ -68,54 +119,124 @@ theorem C17_parse_entry_points {Db E Tree H : Type}
     rw [← hfilePath, ← this]
     cases (parseFile k core c encName env content data (.path base) (some sfx)).2 <;> rfl
 
-/-- the hypotheses of `C17_parse_entry_points` hold in a concrete world, for both `unicode_io` values
-and a non-ASCII document, and the common result is the core's answer on the document -/
+/-- `C17_parse_entry_points` INSTANTIATED in a concrete world (the hypotheses are discharged by
+evaluation), for both `unicode_io` values and a non-ASCII document; the common result is the core's
+answer on the document. -/
 theorem C17_parse_entry_points_nonvacuous :
     let s := "@a{k, t = {café}}".toList
-    let content : Path → Bytes := fun _ => Toy.enc s
-    Toy.codec.dec (Toy.codec.enc s) = .ok s ∧
-    Toy.env.isFile "f.bib".toList = true ∧
-    (∀ mode kw, mode.contains 'w' = false → Toy.env.opener "f.bib".toList mode kw = .ok "f.bib".toList) ∧
-    (parseFile (.base true) Toy.reader Toy.codec "L1".toList Toy.env content [] (.path "f.bib".toList) none).2
-      = .ok [.text s] ∧
-    (parseFile (.base false) Toy.reader Toy.codec "L1".toList Toy.env content [] (.path "f.bib".toList) none).2
-      = .ok [.binary (Toy.enc s)] ∧
-    parseBytes (.base true) Toy.reader Toy.codec [] (Toy.enc s) = .ok [.text s] ∧
+    let content : PathArg → Bytes := fun _ => Toy.enc s
+    ((parseFile (.base true) Toy.reader Toy.codec "L1".toList Toy.env content [] (.path "f.bib".toList) none).2
+        = parseString (.base true) Toy.reader Toy.codec [] s ∧
+      parseBytes (.base true) Toy.reader Toy.codec [] (Toy.enc s) = parseString (.base true) Toy.reader Toy.codec [] s) ∧
+    ((parseFile (.base false) Toy.reader Toy.codec "L1".toList Toy.env content [] (.path "f.bib".toList) none).2
+        = parseString (.base false) Toy.reader Toy.codec [] s ∧
+      (parseFiles (.base false) Toy.reader Toy.codec "L1".toList Toy.env content (some ".bib".toList) [] ["f".toList]).2
+        = parseString (.base false) Toy.reader Toy.codec [] s) ∧
+    parseString (.base true) Toy.reader Toy.codec [] s = .ok [.text s] ∧
     parseString (.base false) Toy.reader Toy.codec [] s = .ok [.binary (Toy.enc s)] := by
-  refine ⟨by decide, by decide, ?_, by decide, by decide, by decide, by decide⟩
-  intro mode kw hm
-  simp only [Toy.env, hm, Bool.false_eq_true, if_false, if_true]
+  intro s content
+  have h1 := C17_parse_entry_points (.base true) Toy.reader Toy.codec "L1".toList Toy.env content [] s
+    "f.bib".toList (.str "f.bib".toList) (by decide) (fun _ => by decide) (by decide) (by decide) rfl
+  have h2 := C17_parse_entry_points (.base false) Toy.reader Toy.codec "L1".toList Toy.env content [] s
+    "f.bib".toList (.str "f.bib".toList) (by decide) (fun _ => by decide) (by decide) (by decide) rfl
+  exact ⟨⟨h1.2.2.2.1, h1.1⟩, ⟨h2.2.2.2.1, h2.2.2.2.2 "f".toList ".bib".toList (by decide)⟩, by decide, by decide⟩
 
-/-- **Parse entry points, BibTeXML.**  An XML byte document says itself how it is encoded, so the bytes
-that correspond to the text `s` are any `b` that ElementTree reads as it reads `s` (for instance
-`enc (xmlDecl name ++ s)`, what the BibTeXML writer produces).  For such bytes: `parse_bytes`,
-`parse_stream`, a file-like object and a file containing them all equal `parse_string s`, whatever
-`encoding` the parser was created with. -/
-theorem C17_parse_entry_points_bibtexml {Db E Tree H : Type}
-    (core : ReaderCore Db E Tree) (c : Codec) (encName : Str) (env : Env H) (content : H → Bytes)
-    (data : Db) (s : Str) (b : Bytes) (p : Path) (h : H)
-    (het : core.fromBytes b = core.fromStr s)
-    (hfile : env.isFile p = true) (hopen : ∀ mode kw, env.opener p mode kw = .ok h)
-    (hcontent : content h = b) :
-    parseBytes .bibtexml core c data b = parseString .bibtexml core c data s ∧
-    parseStream .bibtexml core data (.binary b) = parseString .bibtexml core c data s ∧
-    (parseFile .bibtexml core c encName env content data (.stream (.binary b)) none).2
-      = parseString .bibtexml core c data s ∧
-    (parseFile .bibtexml core c encName env content data (.path p) none).2
-      = parseString .bibtexml core c data s := by
-  refine ⟨?_, ?_, ?_, ?_⟩
-  · simp [parseBytes, parseString, het]
-  · simp [parseStream, parseString, het]
-  · simp [parseFile, ReaderKind.unicodeIO, openRaw, pyOpen, readOpened, parseStream, parseString, het]
-  · simp [parseFile, ReaderKind.unicodeIO, openRaw, pyOpen, openExisting, hfile, hopen, readOpened, hcontent,
-      parseStream, parseString, het]
+/-- **Parse entry points, BibTeXML** (the reader after fix C17-4: a `unicode_io` class whose `parse_string`
+hands the text to ElementTree).  The bytes the BibTeXML writer produces for the text `s` are the DECLARED
+document `enc (xmlDecl name ++ s ++ "\n")`.  Hypotheses, all explicit:
+`hrt`   the codec named by `encoding` represents that document (`dec (enc doc) = doc`) — nothing is assumed
+        about HOW the codec is called (`utf8`, `U8`, `utf-8-sig`, `utf-32`, `utf-16-le` … all qualify);
+`hdecl` ElementTree, given a `str`, ignores the XML declaration in it (it reads the declared text as it
+        reads the text);
+`hnl`   the declared document contains no carriage return (otherwise: `C17_parse_file_newlines`);
+and the one `open` call succeeds.  Then `parse_bytes`, `parse_stream`, a file-like object and a file
+containing those bytes all equal `parse_string s`.
+(For the UNDECLARED bytes `enc s` the same holds without `hdecl`: that is `C17_parse_entry_points` with
+`k = .bibtex`.) -/
+theorem C17_parse_entry_points_bibtexml {Db E H : Type}
+    (core : ReaderCore Db E) (c : Codec) (encName : Str) (env : Env H) (content : H → Bytes)
+    (data : Db) (s : Str) (p : Path) (h : H)
+    (hrt : c.dec (c.enc (xmlDecl encName ++ s ++ ['\n'])) = .ok (xmlDecl encName ++ s ++ ['\n']))
+    (hdecl : core.parseText data (xmlDecl encName ++ s ++ ['\n']) = core.parseText data s)
+    (hnl : '\r' ∉ xmlDecl encName ++ s ++ ['\n'])
+    (hfile : env.isFile p = true)
+    (hopen : env.opener (.str p) ['r'] (some encName) = .ok h)
+    (hcontent : content h = c.enc (xmlDecl encName ++ s ++ ['\n'])) :
+    parseBytes .bibtex core c data (c.enc (xmlDecl encName ++ s ++ ['\n'])) = parseString .bibtex core c data s ∧
+    parseStream .bibtex core data (.text (xmlDecl encName ++ s ++ ['\n'])) = parseString .bibtex core c data s ∧
+    (parseFile .bibtex core c encName env content data (.stream (.text (xmlDecl encName ++ s ++ ['\n']))) none).2
+      = parseString .bibtex core c data s ∧
+    (parseFile .bibtex core c encName env content data (.path p) none).2
+      = parseString .bibtex core c data s := by
+  have key : parseString .bibtex core c data (xmlDecl encName ++ s ++ ['\n']) = parseString .bibtex core c data s := by
+    simp only [parseString, hdecl]
+  have := C17_parse_entry_points .bibtex core c encName env content data (xmlDecl encName ++ s ++ ['\n']) p h
+    hrt (fun _ => hnl) hfile hopen hcontent
+  rw [key] at this
+  exact ⟨this.1, this.2.1, this.2.2.1, this.2.2.2.1⟩
 
+/-- `C17_parse_entry_points_bibtexml` instantiated: Latin-1-like codec called `utf8` in the declaration. -/
 theorem C17_parse_entry_points_bibtexml_nonvacuous :
     let s := "<f>café</f>".toList
-    let b := Toy.enc (xmlDecl "L1".toList ++ s)
-    Toy.reader.fromBytes b = Toy.reader.fromStr s ∧
-    parseBytes .bibtexml Toy.reader Toy.codec ([] : List Stream) b = .ok [.text s] := by
-  decide
+    let doc := xmlDecl "utf8".toList ++ s ++ ['\n']
+    let content : PathArg → Bytes := fun _ => Toy.enc doc
+    parseBytes .bibtex Toy.reader Toy.codec ([] : List Stream) (Toy.enc doc)
+      = parseString .bibtex Toy.reader Toy.codec [] s ∧
+    (parseFile .bibtex Toy.reader Toy.codec "utf8".toList Toy.env content [] (.path "f.bib".toList) none).2
+      = parseString .bibtex Toy.reader Toy.codec [] s ∧
+    parseString .bibtex Toy.reader Toy.codec ([] : List Stream) s = .ok [.text s] := by
+  intro s doc content
+  have h := C17_parse_entry_points_bibtexml Toy.reader Toy.codec "utf8".toList Toy.env content [] s
+    "f.bib".toList (.str "f.bib".toList) (by decide) (by decide) (by decide) (by decide) (by decide) rfl
+  exact ⟨h.1, h.2.2.2, by decide⟩
+
+/-- **`parse_files` is the sequential composition of `parse_file` on one parser.**
+No file: the database is returned as it is and nothing is opened.  A list `fs1 ++ fs2`: first `fs1`, then
+(on the database that produced, with its events first) `fs2`.  A failure in the middle: when the files of
+`fs1` were read and the next file `f` fails, the call fails with THAT error, the events are those of
+`fs1` followed by those of the failing attempt, and no file after `f` is ever looked at. -/
+theorem C17_parse_files {Db E H : Type}
+    (k : ReaderKind) (core : ReaderCore Db E) (c : Codec) (encName : Str) (env : Env H) (content : H → Bytes)
+    (sfx : Option Str) (data : Db) :
+    parseFiles k core c encName env content sfx data [] = ([], .ok data) ∧
+    (∀ f, parseFiles k core c encName env content sfx data [f]
+        = parseFile k core c encName env content data (.path f) sfx) ∧
+    (∀ fs1 fs2 d', (parseFiles k core c encName env content sfx data fs1).2 = .ok d' →
+        parseFiles k core c encName env content sfx data (fs1 ++ fs2) =
+          ((parseFiles k core c encName env content sfx data fs1).1 ++
+              (parseFiles k core c encName env content sfx d' fs2).1,
+            (parseFiles k core c encName env content sfx d' fs2).2)) ∧
+    (∀ fs1 f fs2 d' e, (parseFiles k core c encName env content sfx data fs1).2 = .ok d' →
+        (parseFile k core c encName env content d' (.path f) sfx).2 = .error e →
+        parseFiles k core c encName env content sfx data (fs1 ++ f :: fs2) =
+          ((parseFiles k core c encName env content sfx data fs1).1 ++
+              (parseFile k core c encName env content d' (.path f) sfx).1, .error e)) := by
+  refine ⟨rfl, ?_, ?_, ?_⟩
+  · intro f
+    simp only [parseFiles]
+    generalize parseFile k core c encName env content data (.path f) sfx = r
+    obtain ⟨ev, res⟩ := r
+    cases res <;> simp
+  · intro fs1 fs2 d' h
+    rw [parseFiles_append, h]
+  · intro fs1 f fs2 d' e h hf
+    rw [parseFiles_append, h]
+    simp only [parseFiles, hf]
+
+/-- three files, the second one missing: the first is read, the error is the second one's, the third is
+never opened (its name does not occur among the events) -/
+theorem C17_parse_files_nonvacuous :
+    let content : PathArg → Bytes := fun _ => Toy.enc "x".toList
+    parseFiles (.base false) Toy.reader Toy.codec "L1".toList Toy.env content (some ".bib".toList) []
+        ["f".toList, "h".toList, "f".toList]
+      = ([.tryOpen (.str "f.bib".toList) "rb".toList none, .locate "h.bib".toList,
+          .tryOpen (.str "h.bib".toList) "rb".toList none],
+         .error (.open ⟨"h.bib".toList, "No such file or directory".toList⟩)) ∧
+    parseFiles (.base false) Toy.reader Toy.codec "L1".toList Toy.env content (some ".bib".toList) []
+        ["f".toList, "f".toList]
+      = ([.tryOpen (.str "f.bib".toList) "rb".toList none, .tryOpen (.str "f.bib".toList) "rb".toList none],
+         .ok [.binary (Toy.enc "x".toList), .binary (Toy.enc "x".toList)]) := by
+  refine ⟨by decide +kernel, by decide +kernel⟩
 
 /-! ## writers -/
 
@@ -125,17 +246,19 @@ Byte classes: `to_string` is `to_bytes` decoded; so `to_bytes` is `to_string` en
 re-encodes what it decodes; and `write_file` to a name that can be opened leaves exactly the bytes of
 `to_bytes` in that file (after a single open attempt).
 Both: a file-like object receives what `write_stream` writes, and an error of the plug-in's core is the
-same error from every entry point. -/
+same error from every entry point.  About the world only this is assumed: the ONE `open` call `write_file`
+makes (text mode with the encoding, or `wb`) succeeds. -/
 theorem C17_write_entry_points {Db E H S : Type}
     (u : Bool) (core : WriterCore Db E) (c utf8 : Codec) (encName : Str) (env : Env H)
-    (d : Db) (p : Path) (h : H) (hopen : ∀ mode kw, env.opener p mode kw = .ok h) :
+    (d : Db) (p : Path) (h : H)
+    (hopen : env.opener (.str p) (if u then ['w'] else ['w', 'b']) (if u then some encName else none) = .ok h) :
     (u = true → toBytes (.base u) core c encName d = (toStr (.base u) core c utf8 encName d).map c.enc) ∧
     (u = false → ∀ b, toBytes (.base u) core c encName d = .ok b →
         toStr (.base u) core c utf8 encName d = (c.dec b).mapError WErr.unicodeDecode ∧
         ((∀ b' s', c.dec b' = .ok s' → c.enc s' = b') →
           ∀ s, toStr (.base u) core c utf8 encName d = .ok s → b = c.enc s) ∧
         writeFile (.base u) core c encName env d (.path p : FileArg S)
-          = ([.tryOpen p ['w', 'b'] none], .ok (.file h b))) ∧
+          = ([.tryOpen (.str p) ['w', 'b'] none], .ok (.file h b))) ∧
     (∀ (st : S) payload, writeStream (.base u) core c encName d = .ok payload →
         writeFile (.base u) core c encName env d (.stream st) = ([], .ok (.stream st payload))) ∧
     (∀ e, toBytes (.base u) core c encName d = .error e →
@@ -143,13 +266,20 @@ theorem C17_write_entry_points {Db E H S : Type}
         toStr (.base u) core c utf8 encName d = .error e) := by
   cases u with
   | true =>
+    simp only [if_true] at hopen
     refine ⟨?_, ?_, ?_, ?_⟩
     · intro _
       simp only [toBytes, toStr, writeStream]
       cases core.writeText d <;> rfl
     · intro hu; cases hu
     · intro st payload hp
-      simp [writeFile, WriterKind.unicodeIO, openUnicode, pyOpen, hp]
+      simp only [writeStream] at hp
+      cases hw : core.writeText d with
+      | error e' => simp [hw] at hp
+      | ok chunks =>
+        simp only [hw, Except.ok.injEq] at hp
+        subst hp
+        simp [writeFile, WriterKind.unicodeIO, openUnicode, pyOpen, hw]
     · intro e he
       simp only [toBytes, writeStream] at he
       cases hw : core.writeText d with
@@ -159,6 +289,7 @@ theorem C17_write_entry_points {Db E H S : Type}
         subst he
         simp [writeFile, WriterKind.unicodeIO, openUnicode, pyOpen, openOrCreate, hopen, writeStream, hw, toStr]
   | false =>
+    simp only [Bool.false_eq_true, if_false] at hopen
     refine ⟨?_, ?_, ?_, ?_⟩
     · intro hu; cases hu
     · intro _ b hb
@@ -191,58 +322,86 @@ theorem C17_write_entry_points {Db E H S : Type}
         subst he
         simp [writeFile, WriterKind.unicodeIO, openRaw, pyOpen, openOrCreate, hopen, writeStream, hw, toStr]
 
+/-- `C17_write_entry_points` INSTANTIATED in the toy world (a byte plug-in and a `unicode_io` plug-in,
+non-ASCII document): the hypothesis is discharged by evaluation. -/
 theorem C17_write_entry_points_nonvacuous :
     let d := "café\n".toList
-    (∀ mode kw, mode.contains 'w' = true → Toy.env.opener "/out/x.bib".toList mode kw = .ok "/out/x.bib".toList) ∧
+    toBytes (.base true) Toy.writer Toy.codec "L1".toList d
+      = (toStr (.base true) Toy.writer Toy.codec Toy.codec "L1".toList d).map Toy.codec.enc ∧
     toStr (.base true) Toy.writer Toy.codec Toy.codec "L1".toList d = .ok d ∧
-    toBytes (.base true) Toy.writer Toy.codec "L1".toList d = .ok (Toy.enc d) ∧
     toStr (.base false) Toy.writer Toy.codec Toy.codec "L1".toList d = .ok d ∧
     writeFile (.base false) Toy.writer Toy.codec "L1".toList Toy.env d (.path "/out/x.bib".toList : FileArg Unit)
-      = ([.tryOpen "/out/x.bib".toList "wb".toList none], .ok (.file "/out/x.bib".toList (Toy.enc d))) := by
-  refine ⟨?_, by decide, by decide, by decide, by decide⟩
-  intro mode kw hm
-  simp only [Toy.env, hm, if_true]
-  decide
+      = ([.tryOpen (.str "/out/x.bib".toList) "wb".toList none], .ok (.file (.str "/out/x.bib".toList) (Toy.enc d))) := by
+  intro d
+  have h1 := C17_write_entry_points (S := Unit) true Toy.writer Toy.codec Toy.codec "L1".toList Toy.env d
+    "/out/x.bib".toList (.str "/out/x.bib".toList) (by decide)
+  have h2 := C17_write_entry_points (S := Unit) false Toy.writer Toy.codec Toy.codec "L1".toList Toy.env d
+    "/out/x.bib".toList (.str "/out/x.bib".toList) (by decide)
+  have hb : toBytes (.base false) Toy.writer Toy.codec "L1".toList d = .ok (Toy.enc d) := by decide
+  exact ⟨h1.1 rfl, by decide, by decide, (h2.2.1 rfl _ hb).2.2⟩
 
-/-- **`write_file` of a `unicode_io` class writes exactly `to_bytes`** — PROVIDED the document is not
-empty or the codec encodes the empty string as no bytes (known finding `C17-empty-document-bom`: see
-`C17_write_file_neg`).  One open attempt, in text mode, with the encoding. -/
+/-- **`write_file` of a `unicode_io` class writes exactly `to_bytes`** — PROVIDED `write_stream` calls
+`stream.write` at least once, or the codec encodes the empty string as no bytes (known finding
+`C17-empty-document-bom`: see `C17_write_file_neg`).  One open attempt, in text mode, with the encoding.
+`chunks` are the strings handed to `write`; the document is their concatenation. -/
 theorem C17_write_file_partial {Db E H S : Type}
     (core : WriterCore Db E) (c : Codec) (encName : Str) (env : Env H)
-    (d : Db) (p : Path) (h : H) (hopen : ∀ mode kw, env.opener p mode kw = .ok h)
-    (doc : Str) (hdoc : core.writeText d = .ok doc) (hne : doc ≠ [] ∨ c.enc [] = []) :
-    toBytes (.base true) core c encName d = .ok (c.enc doc) ∧
+    (d : Db) (p : Path) (h : H) (hopen : env.opener (.str p) ['w'] (some encName) = .ok h)
+    (chunks : List Str) (hdoc : core.writeText d = .ok chunks) (hne : chunks ≠ [] ∨ c.enc [] = []) :
+    toStr (.base true) core c c encName d = .ok chunks.flatten ∧
+    toBytes (.base true) core c encName d = .ok (c.enc chunks.flatten) ∧
     writeFile (.base true) core c encName env d (.path p : FileArg S)
-      = ([.tryOpen p ['w'] (some encName)], .ok (.file h (c.enc doc))) := by
-  have htf : textFile c doc = c.enc doc := by
+      = ([.tryOpen (.str p) ['w'] (some encName)], .ok (.file h (c.enc chunks.flatten))) := by
+  have htf : textFile c chunks = c.enc chunks.flatten := by
     unfold textFile
     rcases hne with hne | hne
-    · cases doc with
+    · cases chunks with
       | nil => exact absurd rfl hne
       | cons x r => rfl
-    · cases doc with
+    · cases chunks with
       | nil => simp [hne]
       | cons x r => rfl
-  constructor
+  refine ⟨?_, ?_, ?_⟩
+  · simp [toStr, writeStream, hdoc]
   · simp [toBytes, writeStream, hdoc]
-  · simp [writeFile, WriterKind.unicodeIO, openUnicode, pyOpen, openOrCreate, hopen, writeStream, hdoc, htf]
+  · simp [writeFile, WriterKind.unicodeIO, openUnicode, pyOpen, openOrCreate, hopen, hdoc, htf]
 
+/-- `C17_write_file_partial` instantiated three times: a non-empty document; the EMPTY document under a
+codec without byte-order mark (second disjunct); and an empty document written with ONE `write("")` call
+under a byte-order-mark codec (first disjunct: the file then does hold the mark). -/
 theorem C17_write_file_partial_nonvacuous :
     let d := "café\n".toList
-    Toy.writer.writeText d = .ok d ∧ (d ≠ [] ∨ Toy.codec.enc [] = []) ∧
-    (Toy.writer.writeText [] = .ok [] ∧ ([] ≠ ([] : Str) ∨ Toy.codec.enc [] = [])) ∧
+    let w1 : WriterCore Str Unit := { Toy.writer with writeText := fun d => .ok [d] }
     writeFile (.base true) Toy.writer Toy.codec "L1".toList Toy.env d (.path "/out/x.bib".toList : FileArg Unit)
-      = ([.tryOpen "/out/x.bib".toList "w".toList (some "L1".toList)], .ok (.file "/out/x.bib".toList (Toy.enc d))) := by
-  refine ⟨by decide, by decide, by decide, by decide⟩
+      = ([.tryOpen (.str "/out/x.bib".toList) "w".toList (some "L1".toList)],
+         .ok (.file (.str "/out/x.bib".toList) (Toy.enc d))) ∧
+    writeFile (.base true) Toy.writer Toy.codec "L1".toList Toy.env [] (.path "/out/x.bib".toList : FileArg Unit)
+      = ([.tryOpen (.str "/out/x.bib".toList) "w".toList (some "L1".toList)],
+         .ok (.file (.str "/out/x.bib".toList) [])) ∧
+    writeFile (.base true) w1 Toy.bomCodec "BOM".toList Toy.env [] (.path "/out/x.bib".toList : FileArg Unit)
+      = ([.tryOpen (.str "/out/x.bib".toList) "w".toList (some "BOM".toList)],
+         .ok (.file (.str "/out/x.bib".toList) [255, 254])) := by
+  intro d w1
+  have h1 := C17_write_file_partial (S := Unit) Toy.writer Toy.codec "L1".toList Toy.env d "/out/x.bib".toList
+    (.str "/out/x.bib".toList) (by decide) [d] rfl (Or.inl (by decide))
+  have h2 := C17_write_file_partial (S := Unit) Toy.writer Toy.codec "L1".toList Toy.env [] "/out/x.bib".toList
+    (.str "/out/x.bib".toList) (by decide) [] rfl (Or.inr (by decide))
+  have h3 := C17_write_file_partial (S := Unit) w1 Toy.bomCodec "BOM".toList Toy.env [] "/out/x.bib".toList
+    (.str "/out/x.bib".toList) (by decide) [[]] rfl (Or.inl (by decide))
+  refine ⟨?_, h2.2.2, h3.2.2⟩
+  have := h1.2.2
+  simp only [List.flatten_cons, List.flatten_nil, List.append_nil] at this
+  exact this
 
-/-- The proviso of `C17_write_file_partial` cannot be dropped: for the EMPTY document and a codec that
-writes a byte-order mark (as UTF-16 does) `to_bytes` is the mark, while the file written by `write_file`
-stays empty — "writing to a file writes exactly those bytes" fails there. -/
+/-- The proviso of `C17_write_file_partial` cannot be dropped: for the EMPTY document written without any
+`write` call (what the BibTeX writer does for an empty database) and a codec that writes a byte-order mark
+(as UTF-16 does) `to_bytes` is the mark, while the file written by `write_file` stays empty — "writing to a
+file writes exactly those bytes" fails there. -/
 theorem C17_write_file_neg :
     toStr (.base true) Toy.writer Toy.bomCodec Toy.codec "BOM".toList [] = .ok [] ∧
     toBytes (.base true) Toy.writer Toy.bomCodec "BOM".toList [] = .ok [255, 254] ∧
     writeFile (.base true) Toy.writer Toy.bomCodec "BOM".toList Toy.env [] (.path "/out/x.bib".toList : FileArg Unit)
-      = ([.tryOpen "/out/x.bib".toList "w".toList (some "BOM".toList)], .ok (.file "/out/x.bib".toList [])) := by
+      = ([.tryOpen (.str "/out/x.bib".toList) "w".toList (some "BOM".toList)], .ok (.file (.str "/out/x.bib".toList) [])) := by
   refine ⟨by decide, by decide, by decide⟩
 
 /-- **Write entry points, BibTeXML.**  `to_bytes` is the XML declaration naming the encoding, the
@@ -254,7 +413,7 @@ theorem C17_write_entry_points_bibtexml {Db E H S : Type}
     (d : Db) (p : Path) (h : H) (body : Str)
     (hutf8 : ∀ t, utf8.dec (utf8.enc t) = .ok t)
     (hbody : core.xmlBody d = .ok body) (hshape : body = strip body ++ ['\n'])
-    (hopen : ∀ mode kw, env.opener p mode kw = .ok h) :
+    (hopen : env.opener (.str p) ['w', 'b'] none = .ok h) :
     ∃ doc, toStr .bibtexml core c utf8 encName d = .ok doc ∧
       toBytes .bibtexml core c encName d = .ok (c.enc (xmlDecl encName ++ doc ++ ['\n'])) ∧
       (writeFile .bibtexml core c encName env d (.path p : FileArg S)).2
@@ -267,10 +426,15 @@ theorem C17_write_entry_points_bibtexml {Db E H S : Type}
       Bool.false_eq_true, if_false, mode_wb, if_true]
     rw [List.append_assoc, ← hshape]
 
+/-- `C17_write_entry_points_bibtexml` instantiated (the toy codec round-trips code points below 256 only,
+so the instance uses the identity-on-bytes view of it for `utf8` on an 8-bit document) -/
 theorem C17_write_entry_points_bibtexml_nonvacuous :
     let d := "<f>café</f>".toList
     Toy.writer.xmlBody d = .ok (d ++ ['\n']) ∧ d ++ ['\n'] = strip (d ++ ['\n']) ++ ['\n'] ∧
-    toBytes .bibtexml Toy.writer Toy.codec "L1".toList d = .ok (Toy.enc (xmlDecl "L1".toList ++ d ++ ['\n'])) := by
+    toStr .bibtexml Toy.writer Toy.codec Toy.codec "L1".toList d = .ok d ∧
+    toBytes .bibtexml Toy.writer Toy.codec "L1".toList d = .ok (Toy.enc (xmlDecl "L1".toList ++ d ++ ['\n'])) ∧
+    (writeFile .bibtexml Toy.writer Toy.codec "L1".toList Toy.env d (.path "/out/x.xml".toList : FileArg Unit)).2
+      = .ok (.file (.str "/out/x.xml".toList) (Toy.enc (xmlDecl "L1".toList ++ d ++ ['\n']))) := by
   decide
 
 /-! ## the plug-in tables -/
@@ -477,8 +641,9 @@ theorem C17_installed_not_shadowed_nonvacuous :
 mode and encoding:
 (1) a file-like object comes back untouched and nothing is opened;
 (2) whatever fails, the error is the pybtex error for the name the caller gave;
-(3) reading: one attempt — at the name if it is a file, else at what `kpsewhich` finds, else at the name;
-    failure of the attempt, or of running `kpsewhich`, is the pybtex error carrying that failure's text;
+(3) reading: one attempt — at the name if it is a file, else at what `kpsewhich` returns (the bytes it
+    printed, see `C17_kpsewhich`), else at the name; failure of the attempt, or of running `kpsewhich`, is
+    the pybtex error carrying that failure's text;
 (4) writing: success of the first attempt is success; on failure, without `TEXMFOUTPUT` the error is
     immediate (one attempt); with it there is a second attempt at `posixpath.join(TEXMFOUTPUT, name)`,
     whose success is success, and whose failure reports the FIRST failure, for the original name. -/
@@ -487,32 +652,35 @@ theorem C17_open_faults {H S : Type} (env : Env H) (p : Path) (mode : Str) (kw :
     (∀ e, (pyOpen (S := S) env (.path p) mode kw).2 = .error e → e.filename = p) ∧
     (mode.contains 'w' = false →
       (env.isFile p = true →
-        pyOpen (S := S) env (.path p) mode kw = ([.tryOpen p mode kw],
-          match env.opener p mode kw with
+        pyOpen (S := S) env (.path p) mode kw = ([.tryOpen (.str p) mode kw],
+          match env.opener (.str p) mode kw with
           | .ok h => .ok (.handle h)
           | .error e => .error ⟨p, e.strerror⟩)) ∧
       (env.isFile p = false →
-        (∀ e, env.locate p = .error e →
+        (∀ e, kpsewhich env p = .error e →
           pyOpen (S := S) env (.path p) mode kw = ([.locate p], .error ⟨p, e.strerror⟩)) ∧
-        (∀ found, env.locate p = .ok found →
-          let target := match found with | some q => if q.isEmpty then p else q | none => p
+        (∀ found, kpsewhich env p = .ok found →
+          let target : PathArg := match found with
+            | some q => if q.isEmpty then .str p else .bytes q
+            | none => .str p
           pyOpen (S := S) env (.path p) mode kw = ([.locate p, .tryOpen target mode kw],
             match env.opener target mode kw with
             | .ok h => .ok (.handle h)
             | .error e => .error ⟨p, e.strerror⟩)))) ∧
     (mode.contains 'w' = true →
-      (∀ h, env.opener p mode kw = .ok h →
-        pyOpen (S := S) env (.path p) mode kw = ([.tryOpen p mode kw], .ok (.handle h))) ∧
-      (∀ e1, env.opener p mode kw = .error e1 →
+      (∀ h, env.opener (.str p) mode kw = .ok h →
+        pyOpen (S := S) env (.path p) mode kw = ([.tryOpen (.str p) mode kw], .ok (.handle h))) ∧
+      (∀ e1, env.opener (.str p) mode kw = .error e1 →
         (dget env.environ "TEXMFOUTPUT".toList = none →
-          pyOpen (S := S) env (.path p) mode kw = ([.tryOpen p mode kw], .error ⟨p, e1.strerror⟩)) ∧
+          pyOpen (S := S) env (.path p) mode kw = ([.tryOpen (.str p) mode kw], .error ⟨p, e1.strerror⟩)) ∧
         (∀ dir, dget env.environ "TEXMFOUTPUT".toList = some dir →
-          (∀ h, env.opener (posixJoin dir p) mode kw = .ok h →
+          (∀ h, env.opener (.str (posixJoin dir p)) mode kw = .ok h →
             pyOpen (S := S) env (.path p) mode kw
-              = ([.tryOpen p mode kw, .tryOpen (posixJoin dir p) mode kw], .ok (.handle h))) ∧
-          (∀ e2, env.opener (posixJoin dir p) mode kw = .error e2 →
+              = ([.tryOpen (.str p) mode kw, .tryOpen (.str (posixJoin dir p)) mode kw], .ok (.handle h))) ∧
+          (∀ e2, env.opener (.str (posixJoin dir p)) mode kw = .error e2 →
             pyOpen (S := S) env (.path p) mode kw
-              = ([.tryOpen p mode kw, .tryOpen (posixJoin dir p) mode kw], .error ⟨p, e1.strerror⟩))))) := by
+              = ([.tryOpen (.str p) mode kw, .tryOpen (.str (posixJoin dir p)) mode kw],
+                 .error ⟨p, e1.strerror⟩))))) := by
   refine ⟨fun s => rfl, ?_, ?_, ?_⟩
   · intro e he
     simp only [pyOpen] at he
@@ -522,7 +690,7 @@ theorem C17_open_faults {H S : Type} (env : Env H) (p : Path) (mode : Str) (kw :
   · intro hm
     refine ⟨fun hf => ?_, fun hf => ⟨fun e he => ?_, fun found hfound => ?_⟩⟩
     · simp only [pyOpen, hm, Bool.false_eq_true, if_false, openExisting, hf, if_true]
-      cases env.opener p mode kw <;> rfl
+      cases env.opener (.str p) mode kw <;> rfl
     · simp only [pyOpen, hm, Bool.false_eq_true, if_false, openExisting, hf, he]
     · simp only [pyOpen, hm, Bool.false_eq_true, if_false, openExisting, hf, hfound]
       cases env.opener _ mode kw <;> rfl
@@ -534,23 +702,88 @@ theorem C17_open_faults {H S : Type} (env : Env H) (p : Path) (mode : Str) (kw :
     · simp only [pyOpen, hm, if_true, openOrCreate, he1, hdir, he2]
 
 /-- every branch of `C17_open_faults` is inhabited by the toy world: read of an existing file, read of a
-missing one, write that succeeds at once, write that succeeds at the fall-back, write that fails twice -/
+missing one that `kpsewhich` does not know, read through what `kpsewhich` printed (a `bytes` path, the
+trailing newline removed), a `kpsewhich` that cannot be started, write that succeeds at once, write that
+succeeds at the fall-back, write that fails twice -/
 theorem C17_open_faults_nonvacuous :
     pyOpen (S := Unit) Toy.env (.path "f.bib".toList) "rb".toList none
-      = ([.tryOpen "f.bib".toList "rb".toList none], .ok (.handle "f.bib".toList)) ∧
+      = ([.tryOpen (.str "f.bib".toList) "rb".toList none], .ok (.handle (.str "f.bib".toList))) ∧
+    pyOpen (S := Unit) Toy.env (.path "h.bib".toList) "rb".toList none
+      = ([.locate "h.bib".toList, .tryOpen (.str "h.bib".toList) "rb".toList none],
+         .error ⟨"h.bib".toList, "No such file or directory".toList⟩) ∧
     pyOpen (S := Unit) Toy.env (.path "g.bib".toList) "rb".toList none
-      = ([.locate "g.bib".toList, .tryOpen "g.bib".toList "rb".toList none],
-         .error ⟨"g.bib".toList, "No such file or directory".toList⟩) ∧
+      = ([.locate "g.bib".toList, .tryOpen (.bytes (Toy.enc "/texmf/g.bib".toList)) "rb".toList none],
+         .ok (.handle (.bytes (Toy.enc "/texmf/g.bib".toList)))) ∧
+    pyOpen (S := Unit) Toy.env (.path "k.bib".toList) "rb".toList none
+      = ([.locate "k.bib".toList], .error ⟨"k.bib".toList, "No such file or directory".toList⟩) ∧
     pyOpen (S := Unit) Toy.env (.path "/out/a.bbl".toList) "w".toList none
-      = ([.tryOpen "/out/a.bbl".toList "w".toList none], .ok (.handle "/out/a.bbl".toList)) ∧
+      = ([.tryOpen (.str "/out/a.bbl".toList) "w".toList none], .ok (.handle (.str "/out/a.bbl".toList))) ∧
     pyOpen (S := Unit) Toy.env (.path "a.bbl".toList) "w".toList none
-      = ([.tryOpen "a.bbl".toList "w".toList none, .tryOpen "/out/a.bbl".toList "w".toList none],
-         .ok (.handle "/out/a.bbl".toList)) ∧
+      = ([.tryOpen (.str "a.bbl".toList) "w".toList none, .tryOpen (.str "/out/a.bbl".toList) "w".toList none],
+         .ok (.handle (.str "/out/a.bbl".toList))) ∧
     pyOpen (S := Unit) Toy.envRO (.path "a.bbl".toList) "w".toList none
-      = ([.tryOpen "a.bbl".toList "w".toList none, .tryOpen "/ro/a.bbl".toList "w".toList none],
+      = ([.tryOpen (.str "a.bbl".toList) "w".toList none, .tryOpen (.str "/ro/a.bbl".toList) "w".toList none],
          .error ⟨"a.bbl".toList, "Permission denied".toList⟩) ∧
     (OpenErr.message ⟨"a.bbl".toList, "Permission denied".toList⟩) = "unable to open a.bbl. Permission denied".toList := by
-  refine ⟨by decide +kernel, by decide +kernel, by decide +kernel, by decide +kernel, by decide +kernel, by decide +kernel⟩
+  refine ⟨by decide +kernel, by decide +kernel, by decide +kernel, by decide +kernel, by decide +kernel,
+    by decide +kernel, by decide +kernel, by decide +kernel⟩
+
+/-- **`kpsewhich`** (pybtex/kpathsea.py), for every behaviour of the program:
+(1) it cannot be started (`Popen` raises `OSError`: not installed, not executable): that error, which
+    `pybtex.io` turns into the pybtex error for the name asked for — and nothing is opened;
+(2) it exits with a non-zero return code: `None`, whatever it printed — the name itself is opened;
+(3) it exits with 0: the bytes it printed WITHOUT the trailing run of ASCII white space (the output is
+    that result followed by white space only, and the result does not end in white space); if that is
+    empty the name itself is opened, otherwise exactly those bytes are opened, as a `bytes` path. -/
+theorem C17_kpsewhich {H S : Type} (env : Env H) (p : Path) (mode : Str) (kw : Option Str)
+    (hm : mode.contains 'w' = false) (hf : env.isFile p = false) :
+    (∀ e, env.runKpsewhich p = .error e →
+        kpsewhich env p = .error e ∧
+        pyOpen (S := S) env (.path p) mode kw = ([.locate p], .error ⟨p, e.strerror⟩)) ∧
+    (∀ rc out, env.runKpsewhich p = .ok (rc, out) → rc ≠ 0 →
+        kpsewhich env p = .ok none ∧
+        (pyOpen (S := S) env (.path p) mode kw).1 = [.locate p, .tryOpen (.str p) mode kw]) ∧
+    (∀ out, env.runKpsewhich p = .ok (0, out) →
+        ∃ q, kpsewhich env p = .ok (some q) ∧
+          (∃ ws, out = q ++ ws ∧ ws.all isAsciiWsByte = true) ∧
+          (∀ x, q.getLast? = some x → isAsciiWsByte x = false) ∧
+          (q = [] → (pyOpen (S := S) env (.path p) mode kw).1 = [.locate p, .tryOpen (.str p) mode kw]) ∧
+          (q ≠ [] → pyOpen (S := S) env (.path p) mode kw = ([.locate p, .tryOpen (.bytes q) mode kw],
+            match env.opener (.bytes q) mode kw with
+            | .ok h => .ok (.handle h)
+            | .error e => .error ⟨p, e.strerror⟩))) := by
+  have hof := (C17_open_faults (S := S) env p mode kw).2.2.1 hm
+  refine ⟨fun e he => ?_, fun rc out hr hrc => ?_, fun out hr => ?_⟩
+  · have hk : kpsewhich env p = .error e := by simp [kpsewhich, he]
+    exact ⟨hk, (hof.2 hf).1 e hk⟩
+  · have hk : kpsewhich env p = .ok none := by simp [kpsewhich, hr, hrc]
+    refine ⟨hk, ?_⟩
+    have := (hof.2 hf).2 none hk
+    simp only at this
+    rw [this]
+  · have hk : kpsewhich env p = .ok (some (rstripBytes out)) := by simp [kpsewhich, hr]
+    have hs := rstripBytes_spec out
+    refine ⟨rstripBytes out, hk, hs.1, hs.2, fun hq => ?_, fun hq => ?_⟩
+    · have := (hof.2 hf).2 _ hk
+      simp only [hq, List.isEmpty_nil, if_true] at this
+      rw [this]
+    · have := (hof.2 hf).2 _ hk
+      have hne : (rstripBytes out).isEmpty = false := by
+        cases h : rstripBytes out with
+        | nil => exact absurd h hq
+        | cons x r => rfl
+      simp only [hne, Bool.false_eq_true, if_false] at this
+      exact this
+
+/-- the three behaviours of the program in the toy world: printed a path and a newline (the newline is
+removed, the rest is opened as bytes), return code 1, cannot be started -/
+theorem C17_kpsewhich_nonvacuous :
+    kpsewhich Toy.env "g.bib".toList = .ok (some (Toy.enc "/texmf/g.bib".toList)) ∧
+    kpsewhich Toy.env "h.bib".toList = .ok none ∧
+    kpsewhich Toy.env "k.bib".toList = .error ⟨"No such file or directory".toList⟩ ∧
+    rstripBytes (Toy.enc "/a b \t\r\n\n ".toList) = Toy.enc "/a b".toList ∧
+    rstripBytes (Toy.enc " \n".toList) = [] := by
+  refine ⟨by decide +kernel, by decide +kernel, by decide +kernel, by decide +kernel, by decide +kernel⟩
 
 /-- The fall-back path is the directory, a slash, the name — for a relative name and a directory that
 does not already end in a slash; an absolute name is retried as it is (as `posixpath.join` has it). -/
@@ -561,5 +794,96 @@ theorem C17_fallback_path (dir p : Path) :
   · intro h1 h2 h3
     simp [posixJoin, h1, h2, h3]
   · intro h; simp [posixJoin, h]
+
+/-! ## `enumerate_plugin_names`, and the module-level functions -/
+
+/-- **`enumerate_plugin_names`**, for every installed table, registry and group:
+(a) the names it yields are EXACTLY the names an exact lookup in that group finds — run-time and
+    installed ones alike; in particular a name that is registered only in the `.aliases` (or `.suffixes`)
+    companion group is never listed;
+(b) order: the run-time names of the group (each once, in registration order), then the installed ones;
+(c) a registration in any OTHER group — so every alias and every suffix registration — leaves the
+    enumeration of the group as it was. -/
+theorem C17_enumerate_plugin_names (tbl : Installed) (defaults : List (Str × Str)) (R : Registry) (g : Str) :
+    (∀ n, n ∈ enumeratePluginNames tbl R g ↔ ∃ k, loadEntryPoint tbl R g n false = .ok k) ∧
+    (∃ rt, enumeratePluginNames tbl R g = rt ++ installedNames tbl g ∧
+        ∀ n, n ∈ rt ↔ (runtimeGet R g n).isSome = true) ∧
+    (∀ g' n k force R' b, g' ≠ g → registerPlugin tbl defaults R g' n k force = .ok (R', b) →
+        enumeratePluginNames tbl R' g = enumeratePluginNames tbl R g) := by
+  refine ⟨fun n => ?_, ?_, ?_⟩
+  · rw [mem_enumerate_iff, loadEntryPoint_exact]
+    simp only [Spec.Plugins.load]
+    cases eff tbl R g n <;> simp [optToExcept]
+  · refine ⟨(match dget R g with | none => [] | some d => dkeys d), rfl, fun n => ?_⟩
+    simp only [runtimeGet]
+    cases dget R g with
+    | none => simp
+    | some d => exact mem_dkeys_iff d n
+  · intro g' n k force R' b hne h
+    unfold registerPlugin at h
+    cases hb : baseGroup g' n with
+    | error e => simp [hb] at h
+    | ok base =>
+      simp only [hb] at h
+      split at h
+      · cases h
+      · split at h
+        · cases h; rfl
+        · simp only [Except.ok.injEq, Prod.mk.injEq] at h
+          obtain ⟨h1, _⟩ := h
+          subst h1
+          simp only [enumeratePluginNames, dget_runtimeSet_ne R g' n k g hne.symm]
+
+/-- a name and an alias registered at run time: the name is listed first, the alias is not listed, the
+installed names follow -/
+theorem C17_enumerate_plugin_names_nonvacuous :
+    let g := "pybtex.database.input".toList
+    let R := (plugRun Gen.installedPlugins Gen.defaultPlugins []
+      [.register g "n1".toList "K1".toList false, .register (g ++ ".aliases".toList) "a1".toList "K2".toList false,
+       .register g "n2".toList "K1".toList false, .register g "n1".toList "K3".toList true]).1
+    enumeratePluginNames Gen.installedPlugins R g
+      = ["n1".toList, "n2".toList, "bibtex".toList, "bibtexml".toList, "yaml".toList] ∧
+    findPlugin Gen.installedPlugins Gen.defaultPlugins R g (.str "a1".toList) none = .ok "K2".toList := by
+  decide +kernel
+
+/-- **The module-level functions** (`pybtex.database.parse_file / parse_string / parse_bytes`,
+`BibliographyData.to_file / to_string / to_bytes`) choose the class with `find_plugin` and then call the
+class's entry point (to which the theorems above apply):
+a plug-in CLASS given as the format is used as it is; without a format and without a file name (an unnamed
+stream) the default plug-in of the group is used; and, over the regenerated tables, every reader / writer
+suffix entry selects from EVERY file name `dir/stem.sfx` the class that some format name selects —
+choosing the format from the file suffix equals naming it. -/
+theorem C17_module_functions :
+    (∀ tbl defaults R k f, readerFor tbl defaults R (.cls k) f = .ok k ∧ writerFor tbl defaults R (.cls k) f = .ok k) ∧
+    (readerFor Gen.installedPlugins Gen.defaultPlugins [] .none none
+        = readerFor Gen.installedPlugins Gen.defaultPlugins [] (.str "bibtex".toList) none ∧
+      writerFor Gen.installedPlugins Gen.defaultPlugins [] .none none
+        = writerFor Gen.installedPlugins Gen.defaultPlugins [] (.str "bibtex".toList) none) ∧
+    (∀ sfx k, ("pybtex.database.input.suffixes".toList, sfx, k) ∈ Gen.installedPlugins →
+        ∃ n, readerFor Gen.installedPlugins Gen.defaultPlugins [] (.str n) none = .ok k ∧
+          ∀ dir stem, goodDir dir = true → goodStem stem = true →
+            readerFor Gen.installedPlugins Gen.defaultPlugins [] .none (some (dir ++ stem ++ sfx)) = .ok k) ∧
+    (∀ sfx k, ("pybtex.database.output.suffixes".toList, sfx, k) ∈ Gen.installedPlugins →
+        ∃ n, writerFor Gen.installedPlugins Gen.defaultPlugins [] (.str n) none = .ok k ∧
+          ∀ dir stem, goodDir dir = true → goodStem stem = true →
+            writerFor Gen.installedPlugins Gen.defaultPlugins [] .none (some (dir ++ stem ++ sfx)) = .ok k) := by
+  refine ⟨fun _ _ _ _ _ => ⟨rfl, rfl⟩, ⟨by decide +kernel, by decide +kernel⟩, ?_, ?_⟩
+  · intro sfx k he
+    have hb : ("pybtex.database.input".toList, "bibtex".toList) ∈ Gen.defaultPlugins := by decide +kernel
+    obtain ⟨h1, n, h2⟩ := C17_suffix_eq_name.1 _ _ _ sfx k hb he rfl
+    exact ⟨n, h2, h1⟩
+  · intro sfx k he
+    have hb : ("pybtex.database.output".toList, "bibtex".toList) ∈ Gen.defaultPlugins := by decide +kernel
+    obtain ⟨h1, n, h2⟩ := C17_suffix_eq_name.1 _ _ _ sfx k hb he rfl
+    exact ⟨n, h2, h1⟩
+
+theorem C17_module_functions_nonvacuous :
+    ("pybtex.database.input.suffixes".toList, ".yaml".toList, "pybtex.database.input.bibyaml:Parser".toList)
+      ∈ Gen.installedPlugins ∧
+    ("pybtex.database.output.suffixes".toList, ".bibtexml".toList, "pybtex.database.output.bibtexml:Writer".toList)
+      ∈ Gen.installedPlugins ∧
+    readerFor Gen.installedPlugins Gen.defaultPlugins [] .none (some "a/b.yaml".toList)
+      = readerFor Gen.installedPlugins Gen.defaultPlugins [] (.str "yaml".toList) none := by
+  decide +kernel
 
 end Pybtex.Props
